@@ -685,9 +685,18 @@ def check_ir_witnesses(ctx, F):
              stmt("Equals", ["A", "C"], ["m1"], else_ifs=[stmt("Equals", ["B"], ["m2"]), stmt("Equals", ["E"], ["m3", "m4"])], els=["m5"]), [(["A", "C"], 1), (["B"], 1), (["E"], 2), (["D"], 1)]),
             ("if (x != A) {..}", stmt("NotEquals", ["A"], ["m1"]), [(["B", "C", "D", "E"], 1)]),
         ]
+        # enumerator names that contain one another (SAY / MONSTER_SAY, as in the chat types): the else arm holds every enumerator that is not
+        # *named* by an earlier arm - a name that is only part of such a name stays
+        NM = ("SAY", "MONSTER_SAY", "WHISPER", "MONSTER_WHISPER", "YELL")
+        cases += [
+            ("if (x == MONSTER_SAY) {..} else if (x == MONSTER_WHISPER) {..} else {..} over SAY, MONSTER_SAY, WHISPER, MONSTER_WHISPER, YELL",
+             stmt("Equals", ["MONSTER_SAY"], ["m1"], else_ifs=[stmt("Equals", ["MONSTER_WHISPER"], ["m2"], names=NM)], els=["m3"], names=NM),
+             [(["MONSTER_SAY"], 1), (["MONSTER_WHISPER"], 1), (["SAY", "WHISPER", "YELL"], 1)]),
+            ("if (x != MONSTER_SAY) {..} over the same names", stmt("NotEquals", ["MONSTER_SAY"], ["m1"], names=NM), [(["SAY", "WHISPER", "MONSTER_WHISPER", "YELL"], 1)]),
+        ]
         for desc, st_, want in cases:
             got = arms(run_(fn["path"], [st_], ov))
-            check(f"`{desc}` over enumerators A..E (arm values, member counts)", got, want, fn)
+            check(f"`{desc}` (arm values, member counts; enumerators A..E unless named)", got, want, fn)
 
 
     def definition():
